@@ -36,8 +36,10 @@ Inductive case :=
    answer is listed *)
 | Multi (tuples : list tuple) (seen : list (nat * string))
 (* three relayers ran the real Executor.Execute (v = Evm | Substrate) with real threshold signing;
-   complete = every session produced exactly one submission and every Execute returned *)
-| Exec (v : via) (chain : N) (contract : string) (sessions : list sess) (complete : bool)
+   complete = every session produced exactly one submission and every Execute returned;
+   crashed = an Execute ended in a Go panic.  (One relayer without peers, where nothing can be signed:
+   no sessions; complete = Execute returned having asked for the digest of every non-empty batch once.) *)
+| Exec (v : via) (chain : N) (contract : string) (sessions : list sess) (complete crashed : bool)
 (* the real executeBatch (through the real BridgeContract.ExecuteProposals, read back from the call
    data) and executeProposal on [batch] while some members count as executed: what was submitted;
    passed = signature bytes / gas limit arrived unchanged, one call each *)
@@ -78,7 +80,7 @@ Definition agree (c : case) : bool :=
       obytes_eqb (sig_assemble_bytes (unhex Rb) (unhex Sb) (unhex rec)) su
   | Kec m d => bytes_eqb (keccak256 (unhex m)) (unhex d)
   | Multi _ _ => true (* the judge already is equality with the model *)
-  | Exec _ _ _ _ complete => complete
+  | Exec _ _ _ _ complete _ => complete
   | Submit _ _ b e su passed => proposals_eqb e b && proposals_eqb su b && passed
   end.
 
@@ -95,10 +97,10 @@ Definition judge (c : case) : bool :=
       (* every answer for tuple i is the EIP-712 digest of tuple i's arguments (Model/C02.multi_ok) *)
       multi_ok (map tuple_digest ts) (map (fun x => (fst x, unhex (snd x))) seen) &&
       forallb (fun x => Nat.eqb (String.length (snd x)) 64) seen
-  | Exec v chain contract ss _ =>
-      (* Model/C02.session_ok: signed value = digest of the session's batch = digest of what was
-         submitted with the signature *)
-      forallb (fun s => session_ok keccak256 (model_domain v "3.1.0" chain contract) (session_of s)) ss
+  | Exec v chain contract ss _ crashed =>
+      (* Model/C02.exec_ok: per session (session_ok) signed value = digest of the session's batch = digest
+         of what was submitted with the signature; and Execute did not crash *)
+      exec_ok keccak256 (model_domain v "3.1.0" chain contract) (map session_of ss) crashed
   | Submit chain contract b e su _ =>
       same_commitment keccak256 (bridge_domain chain (unhex contract)) e b &&
       same_commitment keccak256 (bridge_domain chain substrate_contract) su b
@@ -113,7 +115,7 @@ Definition tag (c : case) : N :=
   | SigRaw _ _ _ e _ => match e with None => 40 | Some _ => 41 end
   | Kec _ _ => 50
   | Multi ts _ => 60 + N.min 9 (N.of_nat (List.length ts))
-  | Exec v _ _ ss _ => (match v with Substrate => 80 | _ => 70 end) + N.min 9 (N.of_nat (List.length ss))
+  | Exec v _ _ ss _ _ => (match v with Substrate => 80 | _ => 70 end) + N.min 9 (N.of_nat (List.length ss))
   | Submit _ _ b e _ _ => 90 + (if Nat.eqb (List.length e) (List.length b) then 0 else 1)
   end.
 
